@@ -108,7 +108,7 @@ SwapRows(src, a, b) == [src EXCEPT ![a] = src[b], ![b] = src[a]]
 SwapCols(src, a, b, k) == TLCEval([ r \in 0 .. (k - 1) |-> [src[r] EXCEPT ![a] = src[r][b], ![b] = src[r][a]] ])
 
 RECURSIVE GaussJordan(_, _, _)
-GaussJordan(st, k, m) ==          \* st = [src, ipiv, indxr, indxc, col, fail]
+GaussJordan(st, k, m) ==          \* st = [src, ipiv, indxr, indxc, col, fail, offdiag]; offdiag is a ghost: the pivot search left the diagonal
     IF st.fail \/ st.col = k THEN st
     ELSE LET piv == PivotSearch(st.src, st.ipiv, st.col, k)
          IN  IF piv[2] = -1 THEN [st EXCEPT !.fail = TRUE]
@@ -133,7 +133,8 @@ GaussJordan(st, k, m) ==          \* st = [src, ipiv, indxr, indxc, col, fail]
                            IN  GaussJordan([ src |-> s3, ipiv |-> [st.ipiv EXCEPT ![icol] = @ + 1],
                                              indxr |-> [st.indxr EXCEPT ![st.col] = irow],
                                              indxc |-> [st.indxc EXCEPT ![st.col] = icol],
-                                             col |-> st.col + 1, fail |-> FALSE ], k, m)
+                                             col |-> st.col + 1, fail |-> FALSE,
+                                             offdiag |-> st.offdiag \/ irow # st.col \/ icol # st.col ], k, m)
 
 RECURSIVE Unscramble(_, _, _, _, _)
 Unscramble(src, indxr, indxc, col, k) ==
@@ -143,9 +144,9 @@ Unscramble(src, indxr, indxc, col, k) ==
 
 InvertMat(src, k, m) ==           \* [fail, mat]
     LET z == TLCEval([ i \in 0 .. (k - 1) |-> 0 ])
-        st == GaussJordan([ src |-> src, ipiv |-> z, indxr |-> z, indxc |-> z, col |-> 0, fail |-> FALSE ], k, m)
-    IN  IF st.fail THEN [fail |-> TRUE, mat |-> src]
-        ELSE [fail |-> FALSE, mat |-> Unscramble(st.src, st.indxr, st.indxc, k - 1, k)]
+        st == GaussJordan([ src |-> src, ipiv |-> z, indxr |-> z, indxc |-> z, col |-> 0, fail |-> FALSE, offdiag |-> FALSE ], k, m)
+    IN  IF st.fail THEN [fail |-> TRUE, mat |-> src, offdiag |-> st.offdiag]
+        ELSE [fail |-> FALSE, mat |-> Unscramble(st.src, st.indxr, st.indxc, k - 1, k), offdiag |-> st.offdiag]
 
 (***************************************************************************)
 (* of_rs_2m_decode with identity payloads: the symbol in slot col is the   *)
@@ -161,6 +162,6 @@ Decode(enc, index0, k, m) ==
         out == TLCEval([ row \in 0 .. (k - 1) |->
                    IF idx[row] < k THEN pkt[row]
                    ELSE TLCEval([ j \in 0 .. (k - 1) |-> Sum([ col \in 1 .. k |-> Mul(inv.mat[row][col - 1], pkt[col - 1][j], m) ]) ]) ])
-    IN  [ err |-> sh.err \/ sh.fuel = 0, singular |-> inv.fail, out |-> out, idx |-> idx ]
+    IN  [ err |-> sh.err \/ sh.fuel = 0, singular |-> inv.fail, out |-> out, idx |-> idx, offdiag |-> inv.offdiag ]
 
 =============================================================================
